@@ -424,6 +424,9 @@ func (Area) Gen(r *rand.Rand, tier string, emit func(string)) {
 	emit("hfile " + hexFiles([]string{"a", "b"}, [][]byte{{1, 2}, {3}}) + " " + hexFiles([]string{"b", "a"}, [][]byte{{3}, {1, 2}}))
 	emit("hfile " + hexFiles([]string{"a"}, [][]byte{{}}) + " -")
 
+	// the real ReflectionRouter: aggregateWatcher over the real router watchers, Remove at four points
+	genRR(r, tier, emit)
+
 	amb := baseContract(3)
 	amb2 := variant(r, amb, 5)
 	for _, os := range []bool{true, false} {
